@@ -94,8 +94,8 @@ PLAN = {
     "C19": {
         "level": "model_checking",
         "pkg": "vcert",
-        "parts": [part("mc_cert", "c19", q=8, t=16, tq=300, tt=2400)],
-        "assumptions": ["each step is atomic under the service's write lock, so step-level interleaving covers concurrent clients", "client ids are derived from Instant::now(): two clients starting within the clock resolution could collide (not explored)"],
+        "parts": [part("mc_cert", "c19", q=8, t=16, tq=300, tt=2400), part("mc_cert", "c19t", q=4, t=8, tq=300, tt=1200)],
+        "assumptions": ["the service shares state between connections only under std::sync RwLock/Mutex (those acquisitions are the scheduling points of the thread exploration; atomics or other primitives would not be seen)", "client ids are derived from Instant::now(): two clients starting within the clock resolution could collide (not explored)"],
     },
     "C08": {
         "level": "exploration",
